@@ -132,6 +132,8 @@ def eval_case(case) -> Outcome:
     out = Outcome()
     base, tr = case["base"], case["transform"]
     out.labels.add("t:" + tr["kind"])
+    if tr.get("zero"):
+        out.labels.add("translated-onto-0.0")
     twin, eff = apply(base, tr)
     if twin == base:
         out.skip = "transformation-was-a-no-op"
@@ -274,12 +276,19 @@ def pair(draw, tier):
     mx = 7 if tier == "quick" else 10
     pal = draw(G.palette(thirds=False))
     ss = draw(G.streams(2, mx, None, "mixed", 0.1, pal=pal, thirds=False))
+    gcc_base = draw(st.integers(0, 2)) == 0
+    if gcc_base:
+        # a stream set realising a drawn GCC shape: several pockets per side, closures on existing rows
+        ss = draw(G.gcc_problem(max_rows=mx + 3, with_utilities=False))["streams"]
+        pal = sorted({x for s in ss for x in (s["t_supply"], s["t_target"])})
     for s in ss:
         if s["t_supply"] == s["t_target"]:
             s["t_target"] = round(s["t_supply"] + 0.01, 6)  # the latent shorthand is directional: write it out
     us = draw(ladder(pal))
     base = {"streams": ss, "utilities": us}
     kind = draw(st.sampled_from(TRANSFORMS + ["mirror", "mirror", "parallel"]))
+    if gcc_base and draw(st.booleans()):
+        kind = draw(st.sampled_from(["split", "mirror"]))  # the two relations that move or add rows next to pocket closures
     tr = {"kind": kind}
     if kind == "permute":
         tr["sperm"] = draw(st.permutations(list(range(len(ss)))))
@@ -289,10 +298,19 @@ def pair(draw, tier):
         tr["frac"] = draw(st.sampled_from([0.5, 0.25, 0.4, 0.9, 0.125]))
     elif kind == "translate":
         tr["dT"] = draw(st.integers(-200, 200).filter(lambda k: k != 0)) * 0.5
+        temps = sorted({x[k] for x in us + ss for k in ("t_supply", "t_target") if x[k] != 0.0})
+        if temps and draw(st.booleans()):
+            # land one temperature of the twin (a utility end twice as often as a stream end) exactly on 0.0
+            utemps = sorted({x[k] for x in us for k in ("t_supply", "t_target") if x[k] != 0.0})
+            glides = sorted({x["t_target"] for x in us if abs(x["t_supply"] - x["t_target"]) >= 1.0 and x["t_target"] != 0.0})
+            if glides and draw(st.booleans()):
+                utemps = glides  # the return temperature of a gliding utility
+            tr["dT"] = -draw(st.sampled_from(utemps if utemps and draw(st.integers(0, 2)) else temps))
+            tr["zero"] = True
     elif kind == "scale":
         tr["k"] = draw(st.sampled_from([0.1, 0.5, 2.0, 3.0, 10.0]))
     return {"base": base, "transform": tr}
 
 
-PARTS = [Part("pairs", eval_case, {"quick": 1200, "thorough": 30000}, strategy=lambda tier: pair(tier), min_nontrivial={"quick": 290, "thorough": 7000})]
+PARTS = [Part("pairs", eval_case, {"quick": 2400, "thorough": 40000}, strategy=lambda tier: pair(tier), min_nontrivial={"quick": 290, "thorough": 7000})]
 MIN_SHARE = {"pairs": {f"t:{k}": 0.03 for k in TRANSFORMS}}
